@@ -11,10 +11,10 @@ K_NOTE = ('Trusted base: Kani 0.68 codegen + CBMC 6.11/CaDiCaL; the stubs and co
 
 BMC = 'Kani-compiled harnesses over the real crate, decided by CBMC (SAT, CaDiCaL) for all values of the symbolic input bytes; auto-deepened unwinding bounds with unwinding assertions; native replay of counterexamples'
 CLAIMED = {
-    'C01': ('DESIGN.md 2/C01', 'bounded model checking: for each shape of the catalogue (every scalar kind, homogeneous and mixed sets, groups; collections in the thorough tier) and ALL header/value contents: build -> encode -> parse returns the same header, groups, names and values', BMC),
+    'C01': ('DESIGN.md 2/C01', 'bounded model checking: for each shape of the catalogue (every scalar kind, homogeneous and mixed sets, groups, collections incl. two-valued members and nesting) and ALL header/value contents: build -> encode -> parse returns the same header, groups, names and values', BMC),
     'C02': ('DESIGN.md 2/C02', 'bounded model checking: value decoder total for every tag x every length 0..=12 x all body bytes (with-language: all inner length pairs); parsed messages can be cloned, re-encoded and dropped', BMC),
     'C03': ('DESIGN.md 2/C03', 'bounded model checking: encoder output == an independently generated RFC 8010 reference encoding, byte for byte, for every shape (incl. collections, mixed sets) and all contents, under every enumerated attribute-map order', BMC + '; reference encoder generated from the RFC text (gen/shapes.py)'),
-    'C04': ('DESIGN.md 2/C04', 'bounded model checking: for each wire shape (incl. forms the encoder never emits) and ALL contents the parser result equals an independent reference interpretation; collections only in the thorough tier (open risk)', BMC),
+    'C04': ('DESIGN.md 2/C04', 'bounded model checking: for each wire shape (incl. forms the encoder never emits) and ALL contents the parser result equals an independent reference interpretation (incl. empty/nested collections, multi-valued members, sets of collections)', BMC),
     'C05': ('DESIGN.md 2/C05', 'MIR normal-form identity of every duplicated blocking/async function pair (9 reader primitives, value step, drive loop, entry points, closures): same reads with the same buffer sizes, same calls, same error propagation, same decisions, with the compiler-generated await machinery removed; the tag dispatch of both drive loops is additionally proved equal, and equal to the RFC 8010 partition, by z3 over all 256 tag bytes; differences are confirmed by running both real parsers natively before being reported', 'MIR normalisation (symbolic walk of both bodies) + z3 on the tag dispatch; native differential confirmation of candidates'),
     'C06': ('DESIGN.md 2/C06', 'bounded model checking: parse_parts under enumerated fragmentation schedules (full, 1-byte, alternating 1/2, 1-byte with Interrupted) x all contents x all payload bytes: same result, reader position == end tag + 1, payload byte-identical', BMC),
     'C07': ('DESIGN.md 2/C07', 'bounded model checking: every cut offset of the shape is rejected with UnexpectedEof; a source failing at every offset yields Err(IoError) with the injected kind (all 8 kinds at 3 offsets, one kind at every offset), all contents', BMC),
@@ -25,7 +25,7 @@ CLAIMED = {
     'C14': ('DESIGN.md 2/C14', 'symbolic execution of the MIR of ipp_uri_to_string over the abstract URI record: result == scheme mapping + authority + default port 631 + path-and-query on every path (the ipps->443 arm is a listed known finding)', 'MIR -> SMT-LIB (strings + integers), z3 cross-checked with cvc5, axiomatised http::Uri accessors validated against the real crate, native replay'),
     'C16': ('DESIGN.md 2/C16', 'bounded model checking over complete finite domains: all 65536 status codes and operation ids, all 256 tag bytes, all 2^32 enum values, against registry tables embedded in the harness', BMC),
     'C17': ('DESIGN.md 2/C17', 'bounded model checking: any status x any printer-state value x EVERY keyword of each length 4,6,8,9,19 (thorough: all lengths 1..19) as single value or in sets at each position: error iff status unsuccessful, not-ready iff stopped or a blocking keyword is present', BMC),
-    'C19': ('DESIGN.md 2/C19', 'bounded model checking: every history of up to 3 add() calls (kind x name x any value) from an empty or parser-style container equals the ordered reference model, groups_of in message order; traversal of scalars, sets of <=3, collections of 3 in every insertion order', BMC),
+    'C19': ('DESIGN.md 2/C19', 'bounded model checking: every 2-step history of add() calls (all 16 kind x name combinations enumerated, any values) from an empty or parser-style container equals the ordered reference model, groups_of in message order; traversal of scalars, sets of <=3, collections of 3 in every insertion order', BMC),
 }
 
 NOT_APPLICABLE = {
